@@ -12,7 +12,9 @@
   Spec/PydLog.lean (pydantic `model_dump(by_alias, exclude_unset)`), Spec/PydInit.lean (pydantic
   `Cls(**kw)` with `populate_by_name`), Spec/Coerce.lean (graphql-core variable coercion).
   Lemmas: Proofs/Coerce.lean, Proofs/ArgValues.lean, Proofs/ArgCall.lean, Proofs/ArgDeliver.lean,
-  Proofs/ArgConstruct.lean.
+  Proofs/ArgConstruct.lean, Proofs/ArgHeap.lean.  Model/ArgHeap.lean (round 4): the caller's lists and
+  instances as OBJECTS, `_convert_value` statement by statement, programs = calls interleaved with the
+  caller's own assignments (§1c: frame, denotation, every call sees the current values).
 
   Quantification: every configuration (schema view, schema source `schema_path` / `remote_schema_url`,
   custom-scalar section, snake-casing on/off,
@@ -40,6 +42,8 @@
 import AriadneModel.Proofs.ArgDeliver
 import AriadneModel.Proofs.ArgConstruct
 import AriadneModel.Proofs.ArgConstructEx
+import AriadneModel.Proofs.ArgHeap
+import AriadneModel.Proofs.ArgHeapEx
 
 set_option linter.unusedSimpArgs false
 set_option linter.unusedVariables false
@@ -275,6 +279,72 @@ theorem args_constructible (src : Source) (cfg : Cfg) (defs : List VarDecl) (a :
 theorem sdl_args_constructible (cfg : Cfg) (defs : List VarDecl) (a : List AV)
     (hp : Proved_03 cfg) (ha : argsValid cfg (idefs defs) a = true) : ConstructibleArgs .sdl cfg a :=
   (args_constructible .sdl cfg defs a hp ha).mpr (by simp [Supported_03v, trig_sdl])
+
+/-! ## 1c. Sequences of calls over the caller's own objects (round 4)
+
+  "Every call" includes the second call with a list of input models the first call has already
+  seen, after the caller updated one of them.  Model/ArgHeap.lean: the caller's lists and instances
+  are objects in a store, `_convert_value` is modelled statement by statement on it. -/
+
+section Sequences
+open Ariadne.ArgHeap
+
+/-- frame: `_convert_value` (as it is in the four base clients) never writes an object that existed
+    before the call — whatever the aliasing and nesting of the caller's lists and instances -/
+theorem convert_value_frame (fns : UserFns) (f : Nat) (v : CVal) (s : CStore) (r : PVal) (s' : CStore)
+    (h : convertValueC fns f v s = some (r, s')) :
+    s.length ≤ s'.length ∧ ∀ a, a < s.length → s'[a]? = s[a]? := convertValueC_keeps fns f v s r s' h
+
+/-- what it returns denotes the value-level `convertValue` of the Python object the argument denotes
+    (the function `send` is stated with), for every tree of depth ≤ `f` -/
+theorem convert_value_denotes (fns : UserFns) (f : Nat) (v : CVal) (s : CStore) (av : AV) (o : PV) (c : List Call)
+    (hd : derefC s f v = some av) (ho : objOf fns av = .ok (o, c)) :
+    ∃ r s', convertValueC fns f v s = some (r, s') ∧ derefP s' f r = some (BaseClient.convertValue o) := by
+  obtain ⟨r, s', h1, _, h3⟩ := convertValueC_spec fns f v s av o c hd ho
+  exact ⟨r, s', h1, h3⟩
+
+/-- `calls_see_current_values`: in every program (calls interleaved with attribute assignments, item
+    assignments and appends, any sharing of objects between arguments and between calls) every call
+    sends what its arguments denote at that moment — the run on the store the base client really
+    leaves behind is the run in which calls touch nothing -/
+theorem calls_see_current_values (env : Arguments.Env) (fns : UserFns) (async : Bool) (fuel : Nat) (s : CStore)
+    (steps : List Step) (hall : ∀ r ∈ runIdeal env fns async fuel s steps, r.isSome = true) :
+    runC env fns async fuel s steps = runIdeal env fns async fuel s steps :=
+  runC_eq_ideal env fns async fuel s steps hall
+
+/-- … and after the program the caller's objects are what the caller's own statements made of them -/
+theorem caller_objects_untouched (fns : UserFns) (fuel : Nat) (s : CStore) (steps : List Step) :
+    ∀ a, a < (callerStore s steps).length →
+      (storeWith (convertValueC fns fuel) s steps)[a]? = (callerStore s steps)[a]? :=
+  (storeWith_inv (convertValueC fns fuel) (convertValueC_keeps fns fuel) steps s s (Keeps.refl s)).2
+
+/-- the ideal run, unfolded: a call is the value-level `send` of the tree its arguments denote in
+    the store the caller's statements have produced so far -/
+theorem runIdeal_call (env : Arguments.Env) (fns : UserFns) (async : Bool) (fuel : Nat) (s : CStore) (c : CallStep)
+    (rest : List Step) :
+    runIdeal env fns async fuel s (.call c :: rest) =
+      (derefArgs s fuel c.args).map (fun avs => send env fns async c.opName c.opText c.defs avs) ::
+        runIdeal env fns async fuel s rest := by
+  simp [runIdeal, runWith, storeAfter_ideal, requestOf]
+
+/-- so every call of a program delivers the values the caller's objects hold at that moment -/
+theorem sequence_call_delivers (cfg : Cfg) (fns : UserFns) (async : Bool) (fuel : Nat) (s : CStore) (c : CallStep) (avs : List AV)
+    (hv : Valid_03 cfg fns c.defs) (hs : Supported_03 cfg c.defs)
+    (hd : derefArgs s fuel c.args = some avs) (ha : argsValid cfg (idefs c.defs) avs = true) :
+    ∃ req, requestOf (envOf cfg) fns async fuel s c = some (.ok req) ∧
+      coerceVars cfg.schema (idefs c.defs) req.variables = .ok (intendedVars cfg fns (idefs c.defs) avs) := by
+  obtain ⟨req, h1, _, h3⟩ := vars_delivered cfg fns async c.opName c.opText c.defs avs hv hs ha
+  exact ⟨req, by simp [requestOf, hd, h1], h3⟩
+
+/-- non-vacuity, and the theorem is about the code: `p = P(limit=3); ps = [p]; q(ps); p.limit = 4; q(ps)`
+    sends limit 3 then limit 4 with `_convert_value` as it is, and limit 3 twice with the variant that
+    converts the list in place (Proofs/ArgHeapEx.lean) -/
+example : runC (envOf f9Cfg) Ex.exFns true 3 Ex.store0 Ex.prog = runIdeal (envOf f9Cfg) Ex.exFns true 3 Ex.store0 Ex.prog :=
+  calls_see_current_values _ _ _ _ _ _ Ex.ideal_defined
+example : Ex.sameVars (Ex.sentBy (convertValueC Ex.exFns 3)) [Ex.limitIs 3, Ex.limitIs 4] = true := Ex.real_client_sends_current
+example : Ex.sameVars (Ex.sentBy (convertValueIP Ex.exFns 2)) [Ex.limitIs 3, Ex.limitIs 3] = true := Ex.in_place_variant_sends_stale
+
+end Sequences
 
 /-! ## 2. The property on the complement of the triggers -/
 
